@@ -1,4 +1,6 @@
 #!/bin/bash
+# evidence of runs against modified code never overwrites the committed evidence of the unchanged tree
+export VERIF_EVIDENCE_DIR=$(mktemp -d /tmp/verif-ev.XXXXXX)
 # tools/seed_try.sh <seeded dir> <Cxx> [tier] : apply seeded/<dir>/patch.diff to /repo, run the check, undo straight afterwards.
 d=$(readlink -f "$1"); pid=$2; tier=${3:-quick}
 cd /verif
